@@ -30,6 +30,7 @@ func init() {
 		}
 		id := stgutg.EncodeSuci([]byte(strings.TrimPrefix(imsi, "imsi-")), mnclen)
 		out["buf"] = hx(id.Buffer)
+		retain(out, "suci", id.Buffer)
 		out["len"] = id.Len
 		ue := tglib.NewRanUeContext("imsi-"+imsi, 1, 0, 2)
 		reg := nasTestpacket.GetRegistrationRequest(nasMessage.RegistrationType5GSInitialRegistration, *id, nil, ue.GetUESecurityCapability(), nil, nil, nil)
